@@ -43,8 +43,10 @@ func (p *prov) String() string {
 	return fmt.Sprintf("fields[%s] params[%s] via[%s] other%v", strings.Join(f, ","), strings.Join(q, ","), strings.Join(cs, ","), p.Other)
 }
 
-func (p *prov) onlyField(k int64) bool { return len(p.Fields) == 1 && p.Fields[k] && len(p.Params) == 0 }
-func (p *prov) onlyParam(i int) bool   { return len(p.Params) == 1 && p.Params[i] && len(p.Fields) == 0 }
+func (p *prov) onlyField(k int64) bool {
+	return len(p.Fields) == 1 && p.Fields[k] && len(p.Params) == 0
+}
+func (p *prov) onlyParam(i int) bool { return len(p.Params) == 1 && p.Params[i] && len(p.Fields) == 0 }
 func (p *prov) via(name string) bool {
 	for k := range p.Callees {
 		if k == name || strings.HasSuffix(k, "."+name) {
